@@ -173,6 +173,7 @@ static void op_put(int id) {
                  if (g != v) judge("C05", "getint", "getint returned %" PRId64 " after putint %" PRId64, g, v); }
     } else {
         vl = gen_value(api == 4 || api == 5);
+        if (api != 4 && api != 5 && rng_chance(&R, 1, 15)) { vl = 0; vf_count("put_empty_value", 1); }    /* a zero-length value behind a non-NULL pointer is accepted and stored */
         cbuf_t vb = cb_make(VBUF, vl, false);
         vf_log("put[%d] k%d=%s v=%s", api, id, vf_hex(UK[id], strlen(UK[id])), vf_hex(VBUF, vl));
         if (api == 4) r = T->putstr(T, (char *)kb.p, (char *)vb.p);
@@ -187,7 +188,7 @@ static void op_put(int id) {
 }
 static void op_get(int id) {
     int api = (int)rng_below(&R, 2); bool newmem = rng_chance(&R, 1, 2);
-    if (api == 1 && MP[id] && (MV[id][MVL[id] - 1] != 0 || strlen((char *)MV[id]) + 1 != MVL[id])) api = 0;
+    if (api == 1 && MP[id] && (MVL[id] == 0 || MV[id][MVL[id] - 1] != 0 || strlen((char *)MV[id]) + 1 != MVL[id])) api = 0;
     cbuf_t kb = cb_make(UK[id], strlen(UK[id]) + 1, P == 11 && rng_chance(&R, 1, 2));
     size_t sz = 999; void *d; errno = 0;
     vf_log("get[%d,newmem=%d] k%d", api, newmem, id);
